@@ -214,7 +214,11 @@ impl FileSystem for MemoryFS {
     fn create_file(&self, path: &str) -> VfsResult<Box<dyn SeekAndWrite + Send>> {
         self.ensure_has_parent(path)?;
         let content = Arc::new(Vec::<u8>::new());
-        self.handle.write().unwrap().files.insert(
+        let mut handle = self.handle.write().unwrap();
+        if let Some(existing) = handle.files.get(path) {
+            ensure_file(existing)?;
+        }
+        handle.files.insert(
             path.to_string(),
             MemoryFile {
                 file_type: VfsFileType::File,
